@@ -25,7 +25,7 @@ ASSUMPTIONS = ["reference decoder canonicalisation rules: reserved bytes zeroed,
 FLOORS = {"quick": {"accepted_sd": 10000, "accepted_someip": 5000, "accepted_entry": 3000, "accepted_option": 5000,
                     "sd_resolved_cycles": 10000, "noncanonical_inputs": 5000, "kept_unknown_elements": 3000,
                     "independent_cross_reads": 10000,
-                    "mesh_scenarios": 100, "mesh_wire_roundtrips": 8000}}
+                    "mesh_scenarios": 100, "mesh_wire_roundtrips": 4800}}
 # system-level shards: the mesh workload of pv/mesh.py under this property's boundary monitors (reports of other monitors are dropped)
 MESH = {"want": ("wire",), "claim": ("mesh:own-transmission-does-not-survive",),
         "quick": (2, 60), "thorough": (16, 1500)}
